@@ -63,7 +63,7 @@ theorem inv_step_lts (fuel : Nat) (h : Inv N scale F flow size cfg d1 L s a) (hp
 
 theorem inv_init (hc : CfgOK F cfg) (hg : GridOK scale size F cfg d1 L arrivals) (hw : WorkOK N size F flow cfg d1 arrivals) :
     Inv N scale F flow size cfg d1 L (initState F arrivals) (a0 arrivals) := by
-  obtain ⟨h1, h2, h3⟩ := kinv_init (N := N) (scale := scale) hc arrivals
+  obtain ⟨h1, h2, h3⟩ := kinv_init (N := N) (scale := scale) (size := size) hc arrivals
   refine ⟨h1, by rw [h2]; exact ainv_init hc hg hw, by rw [h3]; exact linv_init arrivals⟩
 
 /-- **every state reachable by kernel steps is a sound configuration, and the run so far is an admissible run of the LTS**
@@ -77,7 +77,7 @@ theorem reach_lts (fuel : Nat) (hc : CfgOK F cfg) (hg : GridOK scale size F cfg 
   induction h with
   | init =>
     have hi := inv_init (N := N) (flow := flow) hc hg hw
-    obtain ⟨-, h2, h3⟩ := kinv_init (N := N) (scale := scale) hc arrivals
+    obtain ⟨-, h2, h3⟩ := kinv_init (N := N) (scale := scale) (size := size) hc arrivals
     refine ⟨a0 arrivals, [], hi, ?_⟩
     rw [h2, h3, toM_a0]; rfl
   | @step s s' _ hs ih =>
